@@ -35,6 +35,7 @@ def main():
     lib.assert_repo()
     from pddl_plus_parser.exporters import DomainExporter, ProblemExporter
     domains, problems = {}, {}
+    converters, exporters, ndir = {}, {}, [0]
 
     def dom(k):
         if k not in domains:
@@ -97,6 +98,55 @@ def main():
                     else:
                         nxt = op.apply(s)
                         res = repr(model.canon_state(lib.read_state(nxt)))
+            elif kind == "convert-plan":
+                _, pk, lines, agents, flag = c
+                from pddl_plus_parser.multi_agent import PlanConverter
+                from vlib import env
+                pp = Path(env.write_tmp("\n".join(lines) + "\n", suffix=".txt"))
+                converters.setdefault(job["problems"][pk][0], PlanConverter(dom(job["problems"][pk][0])))
+                joint = converters[job["problems"][pk][0]].convert_plan(prob(pk), pp, list(agents), flag)
+                res = repr([str(j) for j in joint])
+            elif kind == "joint-trajectory":
+                _, pk, lines = c
+                from pddl_plus_parser.multi_agent import MultiAgentTrajectoryExporter
+                ex = MultiAgentTrajectoryExporter(dom(job["problems"][pk][0]))
+                trip = ex.parse_plan(prob(pk), action_sequence=list(lines))
+                res = repr([(model.canon_state(lib.read_state(t.previous_state)), [str(o) for o in t.joint_action], model.canon_state(lib.read_state(t.next_state)))
+                            for t in trip])
+            elif kind == "single-trajectory":
+                _, pk, lines, allow = c
+                from pddl_plus_parser.exporters import TrajectoryExporter
+                dk = job["problems"][pk][0]
+                exporters.setdefault((dk, allow), TrajectoryExporter(dom(dk), allow_invalid_actions=allow))
+                trip = exporters[(dk, allow)].parse_plan(prob(pk), action_sequence=list(lines))
+                res = repr([(str(t.operator), model.canon_state(lib.read_state(t.next_state))) for t in trip])
+            elif kind == "combine-dir":
+                _, files = c
+                import os
+                from vlib import env
+                from pddl_plus_parser.multi_agent import MultiAgentDomainsConverter
+                ndir[0] += 1
+                d = os.path.join(env.scratch(), f"dir{ndir[0]}")
+                os.makedirs(d)
+                for fn, text in files.items():
+                    with open(os.path.join(d, fn), "wt") as f:
+                        f.write(text)
+                comb = MultiAgentDomainsConverter(Path(d)).locate_domains()
+                res = repr((sorted((n, t.parent.name if t.parent is not None else None) for n, t in comb.types.items()),
+                            sorted((n, x.type.name) for n, x in comb.constants.items()),
+                            sorted((n, [(k, v.name) for k, v in p.signature.items()]) for n, p in comb.predicates.items()),
+                            sorted((n, [(k, v.name) for k, v in f.signature.items()]) for n, f in comb.functions.items()),
+                            sorted((n, [(k, v.name) for k, v in a.signature.items()], canon_text(sx, a.preconditions.print(should_simplify=False)))
+                                   for n, a in comb.actions.items())))
+            elif kind == "planner-log":
+                _, fname, text, layout = c
+                from vlib import env
+                from pddl_plus_parser.exporters import MetricFFParser, ENHSPParser
+                pth = Path(env.write_tmp(text, name=fname))
+                if layout == "ff":
+                    res = repr(MetricFFParser().get_solving_status(pth))
+                else:
+                    res = repr(ENHSPParser.parse_plan_content(pth))
             elif kind == "problem-content":
                 _, pk = c
                 p = prob(pk)
